@@ -34,7 +34,7 @@ CHECKS.update({
          "and the identity-token closure oracle.",
          "Coq proof (closure = brute force; deferred, shifting and fast deletion exact; mode independence; history invariant) + lock-step correspondence in all modes + closure oracle", "6 C02"),
  "C05": ("proof", "Theorems about the cursor machines of every iterator/circulator class for arbitrary lists, max_laps and step counts (forward trace = list x laps, end = advanced begin, prev/next inverse "
-         "inside the valid range, empty centre invalid, entity iterators = live entities ascending once), builder lists = incident sets under cache exactness. Refuted with witness: valid() after stepping "
+         "inside the valid range, empty centre invalid, entity iterators = live entities ascending once), builder lists = incident sets under cache exactness, and that exactness (with every other state hypothesis) PROVED for every reachable state of C01's history class (Properties_C05_C10_history.v). Refuted with witness: valid() after stepping "
          "back from end (known finding D11). Tie: lock step of every accessor on generated states; brute-force oracles.",
          "Coq proof of cursor machines and builder lists; lock-step correspondence on all accessors; brute-force incident-set oracle", "6 C05"),
  "C09": ("proof", "Theorems: inside a closed cell adjacent_halfface_in_cell returns the unique other halfface at the edge and is an involution; reorder_incident_halffaces on a single fan yields the rotational "
@@ -42,7 +42,7 @@ CHECKS.update({
          "and incidence toggles every live single-fan edge is in rotational order and every live cell is closed with adjacent_halfface_in_cell an involution (Properties_C09_history.v). Tied by lock step on "
          "ordered cache dumps and the fan oracle.",
          "Coq proof (adjacency involution, reorder postcondition, rotational order along all histories) + lock-step correspondence incl. cache order + fan oracle", "6 C09"),
- "C10": ("proof", "Soundness and completeness theorems for every lookup against the brute-force relation over stored definitions under cache exactness and the documented preconditions; completeness of the "
+ "C10": ("proof", "Soundness and completeness theorems for every lookup against the brute-force relation over stored definitions under cache exactness and the documented preconditions - hypotheses PROVED to hold in every reachable state of C01's history class, each theorem restated over histories (Properties_C05_C10_history.v); completeness of the "
          "vertex forms is refuted with parallel edges (known finding) and proved without them. Tie: exhaustive query batches in lock step; brute-force relation oracle.",
          "Coq proof (sound/complete per lookup) + refutation witness; lock-step correspondence on exhaustive query batches; brute-force oracle", "6 C10"),
  "C19": ("proof", "Theorems for every dimension: each VectorT operator (as the algorithm of the header) equals its component-wise definition; integer algebra over Z (order, dot, cross incl. Lagrange identity, lattice laws); "
